@@ -781,9 +781,18 @@ func (s *Shard) createFieldsAndMeasurements(fieldsToCreate []*FieldCreate) error
 	}
 
 	// add fields
-	for _, f := range fieldsToCreate {
+	for i, f := range fieldsToCreate {
 		mf := engine.MeasurementFields(f.Measurement)
 		if err := mf.CreateFieldIfNotExists([]byte(f.Field.Name), f.Field.Type); err != nil {
+			// The fields created before this one stay in memory and later writes will use
+			// them without saving again: persist them now, or points written to them
+			// become unreadable after a restart (with a disk-based index the field set
+			// is loaded from this file only).
+			if i > 0 {
+				if serr := engine.MeasurementFieldSet().Save(); serr != nil {
+					return serr
+				}
+			}
 			return err
 		}
 
